@@ -180,7 +180,7 @@ def recipe(name, family, **kw):
 def axis_of(draw, ndim, none=True, neg=True, tuples=False):
     opts = ([None] if none else []) + list(range(ndim)) + (list(range(-ndim, 0)) if neg else [])
     if tuples and ndim >= 2:
-        opts += [{"$tuple": [0, 1]}, {"$tuple": [-1, 0]}]
+        opts += [{"$tuple": [0, 1]}, {"$tuple": [-1, 0]}, {"$tuple": [0, -1]}, {"$tuple": [-1, -2]}, {"$tuple": [-1]}]
         if ndim >= 3:
             opts += [{"$tuple": [0, 2]}, {"$tuple": [0, 1, 2]}]
     return draw(st.sampled_from(opts))
